@@ -16,6 +16,11 @@ CLAIMED = {
         technique="TLA+ spec TransferControl (replay ring part) checked by TLC; TLC state graph replayed on the real object; recorded histories with content-tagged bodies trace-validated by TLC",
         text="TLC exhausts push/evict/resume/advance/cancel sequences over small chunk sizes, overheads and capacities (invariants Contiguous, Bounded, step properties ResumeGapless, ResumeOnlyCurrent, KeepsNewest, AdvanceClears). The labelled graph is replayed on the real object and the replay offered after every accepted resume is compared chunk by chunk (offset, lengths, last flag, body content tag); random histories with capacities from 0 to u64::MAX and wire lengths different from logical lengths are validated by TLC.",
         note="Trusts TLC and the harness; body identity is checked through the first 8 bytes of each body (a per-push serial number) and the body length. The producer contract (pushed offsets abut) is respected by the generators."),
+    "C12": dict(
+        category="model_checking", design_ref="DESIGN.md §5 C12",
+        technique="TLA+ lock-step mutex/condvar model TransferSync checked by TLC (safety + liveness, must-violate configs per notifier); real-thread schedules recorded by hooks under the mutex and trace-validated by TLC",
+        text="TLC exhausts all interleavings of one waiter (credit or reconnect) with up to three signalling threads over every order of ack, cancel, advance, resume and send in a lock-step model of the mutex/condvar protocol (NoLostWakeup, TimeoutOnlyAtDeadline, liveness WokenWhenReady / ExpiredReturns under weak fairness; removing any one notifier violates NoLostWakeup). The implementation is bound by validating recorded real-thread schedules (500 quick, 10^4 thorough; hook events emitted under the mutex) against the same waiter actions, with an end-of-schedule check that a waiter whose condition holds has returned, and deadline runs that must time out at, not before, the deadline.",
+        note="Trusts TLC, the hook placement (events under the mutex, add-only) and the OS scheduler's variety for the real-thread runs; a waiter not back 10 s after all signallers finished while its condition holds is taken as a lost wake-up."),
 }
 
 NOT_YET = {}
